@@ -1,6 +1,7 @@
 import VivModel.Model.Lifecycle
 import VivModel.Gen.Src
 import VivModel.Lemmas.PyAst
+import VivModel.Lemmas.PyState
 /-! C06, source tie: the Python source of `LifeCycleManager.set_state` and of `LifeCycleState.valid_next_state`
 (`Gen/Src.lean`, regenerated from the tree under test on every run) evaluated by `Py.evalBlock` IS the model's
 `LC.setState` / `LC.validNext` – for every lifecycle, every current state, every requested name. The manager's
@@ -38,7 +39,39 @@ def optState : Option String → LV
   | Option.none => .none
 
 /-- everything except method calls into other translated functions -/
-def lworld0 (lc : LifeCycle) : World M LV where
+def lGetAttr (lc : LifeCycle) (o : LV) (a : String) : M LV := match o with
+  | .self =>
+    if a == "lifecycle" then pure .lifecycle
+    else if a == "_current_state" then do let cur ← (get : M String); pure (.state cur)
+    else if a == "_timings" then pure .timings
+    else if a == "_current_state_start_time" then pure .float
+    else throw "AttributeError"
+  | .lifecycle => if a == "get_state" then pure .getStateFn else throw "AttributeError"
+  | .state s =>
+    if a == "_next" then pure (optState (nextOf (allStates lc) s))
+    else if a == "_loop_next" then pure (optState (loopNextOf lc s))
+    else if a == "valid_next_state" then pure (.validNextFn s)
+    else if a == "enter" then pure (.enterFn s)
+    else if a == "name" then pure (.str s)
+    else throw "AttributeError"
+  | .timingList => if a == "append" then pure .appendFn else throw "AttributeError"
+  | .timeMod => if a == "time" then pure .timeFn else throw "AttributeError"
+  | _ => throw "AttributeError"
+
+def lSetAttr (o : LV) (a : String) (v : LV) : M Unit := match o, v with
+  | .self, .state s => if a == "_current_state" then (set s : M Unit) else throw "AttributeError"
+  | .self, .float => if a == "_current_state_start_time" then pure () else throw "AttributeError"
+  | _, _ => throw "AttributeError"
+
+def lPrim (lc : LifeCycle) (f : LV) (args : List LV) (kws : List (String × LV)) : M LV := match f, args, kws with
+  | .getStateFn, [.str s], [] => if (allStates lc).contains s then pure (.state s) else throw "LifeCycleError"
+  | .enterFn _, [], [] => pure .none
+  | .appendFn, [.float], [] => pure .none
+  | .timeFn, [], [] => pure .float
+  | _, _, _ => throw "TypeError"
+
+/-- `methods`: calls into other translated functions -/
+def lworldWith (lc : LifeCycle) (methods : LV → List LV → List (String × LV) → Option (M LV)) : World M LV where
   none := .none
   bool := .bool
   int := .int
@@ -50,34 +83,11 @@ def lworld0 (lc : LifeCycle) : World M LV where
     | .none => pure false
     | .bool b => pure b
     | _ => pure true
-  getAttr o a := match o with
-    | .self =>
-      if a == "lifecycle" then pure .lifecycle
-      else if a == "_current_state" then do let cur ← (get : M String); pure (.state cur)
-      else if a == "_timings" then pure .timings
-      else if a == "_current_state_start_time" then pure .float
-      else throw "AttributeError"
-    | .lifecycle => if a == "get_state" then pure .getStateFn else throw "AttributeError"
-    | .state s =>
-      if a == "_next" then pure (optState (nextOf (allStates lc) s))
-      else if a == "_loop_next" then pure (optState (loopNextOf lc s))
-      else if a == "valid_next_state" then pure (.validNextFn s)
-      else if a == "enter" then pure (.enterFn s)
-      else if a == "name" then pure (.str s)
-      else throw "AttributeError"
-    | .timingList => if a == "append" then pure .appendFn else throw "AttributeError"
-    | .timeMod => if a == "time" then pure .timeFn else throw "AttributeError"
-    | _ => throw "AttributeError"
-  setAttr o a v := match o, v with
-    | .self, .state s => if a == "_current_state" then (set s : M Unit) else throw "AttributeError"
-    | .self, .float => if a == "_current_state_start_time" then pure () else throw "AttributeError"
-    | _, _ => throw "AttributeError"
-  call f args kws := match f, args, kws with
-    | .getStateFn, [.str s], [] => if (allStates lc).contains s then pure (.state s) else throw "LifeCycleError"
-    | .enterFn _, [], [] => pure .none
-    | .appendFn, [.float], [] => pure .none
-    | .timeFn, [], [] => pure .float
-    | _, _, _ => throw "TypeError"
+  getAttr := lGetAttr lc
+  setAttr := lSetAttr
+  call f args kws := match methods f args kws with
+    | some r => r
+    | Option.none => lPrim lc f args kws
   cmp op l r :=
     if op == "Is" then pure (.bool (l.same r))
     else if op == "IsNot" then pure (.bool (!l.same r))
@@ -100,6 +110,9 @@ def lworld0 (lc : LifeCycle) : World M LV where
   rethrow := throw "reraise"
   catchAll body handler := tryCatch body (fun _ => handler)
 
+/-- everything except method calls into other translated functions -/
+def lworld0 (lc : LifeCycle) : World M LV := lworldWith lc fun _ _ _ => Option.none
+
 theorem same_opt (tgt : String) (o : Option String) : (LV.state tgt).same (optState o) = (o == some tgt) := by
   cases o with
   | none => simp [optState, LV.same]
@@ -110,17 +123,16 @@ theorem same_opt (tgt : String) (o : Option String) : (LV.state tgt).same (optSt
 theorem validNext_refines (lc : LifeCycle) (cur tgt : String) :
     Gen.Src.lifecycleValidNext.run (lworld0 lc) [("self", .state cur), ("state", .state tgt)]
       = pure (LV.bool (validNext lc cur tgt)) := by
-  simp [Func.run, Gen.Src.lifecycleValidNext, evalBlock, evalStmt, evalExpr, lworld0, validNext, same_opt, same_none]
+  simp [Func.run, Gen.Src.lifecycleValidNext, evalBlock, evalStmt, evalExpr, lworld0, lworldWith, lGetAttr, lPrim, validNext, same_opt, same_none]
   cases h1 : (nextOf (allStates lc) cur == some tgt) <;> simp <;> intro h <;> simp [h] at h1
 
 /-- the full world: `self._current_state.valid_next_state(new_state)` is a call INTO the translated source of
 `LifeCycleState.valid_next_state` -/
 def lworld (lc : LifeCycle) : World M LV :=
-  { lworld0 lc with
-    call := fun f args kws => match f, args, kws with
-      | .validNextFn cur, [.state new], [] =>
-        Gen.Src.lifecycleValidNext.run (lworld0 lc) [("self", .state cur), ("state", .state new)]
-      | _, _, _ => (lworld0 lc).call f args kws }
+  lworldWith lc fun f args kws => match f, args, kws with
+    | .validNextFn cur, [.state new], [] =>
+      some (Gen.Src.lifecycleValidNext.run (lworld0 lc) [("self", .state cur), ("state", .state new)])
+    | _, _, _ => Option.none
 
 /-- `LifeCycleManager.set_state(tgt)` with the manager in state `cur`: exactly the model's `setState` – an unknown name
 raises `LifeCycleError`, an illegal successor raises `InvalidTransitionError`, and in both cases `_current_state` is
@@ -131,17 +143,19 @@ theorem setState_refines (lc : LifeCycle) (cur tgt : String) :
         | .ok s => (.ok LV.none, s)
         | .error .unknown => (.error "LifeCycleError", cur)
         | .error .transition => (.error "InvalidTransitionError", cur) := by
-  rw [Func.run]
-  simp only [Gen.Src.lifecycleSetState, evalBlock, evalStmt, evalExpr, evalArgs, evalKws, assignTo, lworld, validNext_refines,
-    Locals.get_cons, Locals.get_set]
-  simp [lworld0, setState]
-  by_cases hmem : tgt ∈ allStates lc <;> simp [hmem]
-  · cases hv : validNext lc cur tgt <;> simp [hv]
-    all_goals
-      simp [ExceptT.run, ExceptT.bind, ExceptT.bindCont, ExceptT.mk, ExceptT.lift, ExceptT.pure, StateT.run, StateT.bind, StateT.get,
-        StateT.set, StateT.pure, bind, pure, get, getThe, MonadStateOf.get, set, MonadStateOf.set, liftM, monadLift,
-        MonadLift.monadLift, throw, throwThe, MonadExceptOf.throw, Functor.map, ExceptT.map, StateT.map, hv, Id.run]
-  · rfl
+  show runM (Gen.Src.lifecycleSetState.run (lworld lc) [("self", .self), ("state", .str tgt)]) cur = _
+  rw [runM_func]
+  simp only [Gen.Src.lifecycleSetState]
+  -- what the method calls INTO: the translated `valid_next_state`, already proved to be the model's `validNext`
+  -- the case distinctions first, then the statements one after the other, however many there are
+  by_cases hmem : tgt ∈ allStates lc
+  · cases hv : validNext lc cur tgt
+    · repeat pystep [lworld, lworldWith, lGetAttr, lSetAttr, lPrim, validNext_refines, hmem, hv]
+      simp [setState, hmem, hv, lworld, lworldWith]
+    · repeat pystep [lworld, lworldWith, lGetAttr, lSetAttr, lPrim, validNext_refines, hmem, hv]
+      simp [setState, hmem, hv, lworld, lworldWith]
+  · repeat pystep [lworld, lworldWith, lGetAttr, lSetAttr, lPrim, validNext_refines, hmem]
+    simp [setState, hmem, lworld, lworldWith]
 
 /-- a request list replayed through the translated `set_state`: refused requests leave the state where it was, so the
 final state is the model's `runReqs` -/
